@@ -116,9 +116,9 @@ def run(prog: Program, rep, thorough: bool) -> None:
 
     def in_unit(q, unit, st_):
         raw_ = st_.heap[q.oid].get('_value') if isinstance(q, Inst) else None
-        if not isinstance(raw_, Scalar):
-            raise AnalysisError(f'quantity without a single magnitude: {raw_!r}')
-        return Scalar(C.read_raw_in(ev, prog, q.cls.name, raw_, unit))
+        if raw_ is None:
+            raise AnalysisError(f'not a quantity: {q!r}')
+        return ev.lift(lambda r_: Scalar(C.read_raw_in(ev, prog, q.cls.name, r_, unit)) if isinstance(r_, Scalar) else r_, raw_)
     # standard temperature
     stf = prog.func(C.M_COND, 'Atmo.standard_temperature')
     rep.saw(stf)
